@@ -27,6 +27,17 @@ let oracle_c02 (line : string) : string =
           let ru = tree_rects u and rt = tree_rects t in
           let moved = List.filter (fun (id, rc) -> match List.assoc_opt id ru with Some rc' -> rc' <> rc | None -> false) rt in
           let same_ids = List.map fst ru = List.map fst rt in
+          (* windows hidden by another window's handler and never shown by one, the hider not below them *)
+          let rec anc_of (Node (i, ch)) w acc = if iz i.w_id = w then Some acc else
+              List.fold_left (fun r c -> match r with Some _ -> r | None -> anc_of c w (iz i.w_id :: acc)) None ch in
+          let shown_by_handler w = List.exists (fun (_, acts) -> List.exists (function RA (RShow x) -> iz x = w | _ -> false) acts) cs.racts2 in
+          let hides = List.concat_map (fun (h, acts) -> List.filter_map (function
+              | RA (RHide w) when not (shown_by_handler (iz w))
+                                  && (match anc_of u h [] with Some a -> not (List.mem (iz w) a) | None -> false) -> Some (zi h, w)
+              | _ -> None) acts) cs.racts2 in
+          if not (has_nested_flush cs) && not (c02_hide_order_checkb hides log) then
+            bad := Some (Printf.sprintf "record %d: a window was handed a rectangle after another window's handler had hidden it" k)
+          else
           match moved with
           | [(w, _)] when same_ids && List.length damage = 1 && List.exists (fun (id, _) -> iz id = w) log
                           && List.for_all (fun (id, acts) -> List.for_all (function RGeom (x, _, _) -> iz x = id | RA (RExpose _) -> true | _ -> false) acts) cs.racts2 ->
